@@ -13,7 +13,7 @@ RULE = (
     "for every base blob (quick: SHA512/nonce and SHA256/P-256 in both layouts + one 300-byte plaintext; thorough: 4 hashes x {nonce,DH,P256,P384} x 2 layouts + the long one) and for nested bases whose secret is itself a blob of the same root key (quick 3, thorough 16; flips, truncations, deletions, insertions, substitutions), exhaustively: "
     "every single-bit flip, every truncation length, deletion of each byte, insertion of 00/FF at each offset, every TLV-header byte and key-identifier header byte replaced by each of "
     "{00,01,7F,80,81,FF}, blobs whose ciphertext is exactly 64 KiB, 1 MiB (thorough: also 2 MiB, 3 MiB, 16 MiB; sparse flips and truncations) (64 KiB: every bit of its headers and of the first/last bytes of the ciphertext, two bits of every 1021st byte, truncations around 4 KiB/64 KiB) through the sync and the async API, and all pairs of flips among {bit 0 of every byte whose flip was harmless} u {first bit of every field}. Algorithm substitution: the content-encryption algorithm identifier replaced by 17 other ciphers / modes x 5 parameter forms, for the IV forms combined with every value of the last / 17th-from-last ciphertext octet. Forgeries that need no secret: key position overwritten with one of 11 positions x 2 L0, wrapped CEK re-wrapped under a KEK derived from one of 7 publicly known byte strings (empty, zeros, the root key id, the key nonce, ...) used as L2 key / L1 key / L0 seed / root key, content re-encrypted (IV kept). The same forgeries against caches with a history (seed keys fetched from the DC; then a protect served from the cache; root key + a protect at (31,31)). Each mutated blob is decrypted by the real unprotect API with an offline "
-    "cache holding the right root key (network seams raise). Blobs rejected by the authentication checks are decrypted a second time in the same process (a retry must not succeed). Oracle: original plaintext | any exception | needs-network; different bytes is the violation. Distinct by (blob, mutation); non-trivial = the "
+    "cache holding the right root key (network seams raise). Cross-group forgeries: the CEK of a blob for X re-wrapped under the key a member of another group Y derives (3 groups x 4 positions), judged on caches that handled Y's blobs first (5 histories). Blobs rejected by the authentication checks are decrypted a second time in the same process (a retry must not succeed). Oracle: original plaintext | any exception | needs-network; different bytes is the violation. Distinct by (blob, mutation); non-trivial = the "
     "mutated bytes differ from the original."
     ' Also: public-key blobs under ECDH root keys whose key_info is replaced by a DH key blob with public value 0 / 1 / p-1 (forged for the degenerate shared secret); a reader who is not authorised for the SID (the DC answers with a public-key envelope) offered blobs re-keyed from that public key.'
     ' Also pieces of the blob itself (ciphertext + tag, every DER node, tail, whole blob) appended / inserted behind the envelope / prepended; transplants are judged on a cache that has already opened every genuine blob.'
@@ -85,6 +85,7 @@ def shards(tier: str, seed: int):
         if "/nonce/" in b.bid:
             out.append(["forge", b.bid])
             out.append(["forge-hist", b.bid])
+            out.append(["crossgroup", b.bid])
     for h_ in (("SHA1",) if tier == "quick" else ("SHA1", "SHA256", "SHA384", "SHA512")):
         for env_ in (True, False):
             out.append(["dhwindow", h_, env_])
@@ -506,6 +507,58 @@ def run_shard(shard, tier, seed, acc) -> None:
         acc.nt_counted(n)
         acc.sample({"blob": base.bid, "forgery against caches with a history": ["dc", "dc+protect", "root+protect@31"]})
         return
+    if shard[0] == "crossgroup":
+        # a member of ANOTHER group Y (who legitimately obtains Y's seed keys for any position) re-wraps the CEK of a blob for group X under
+        # "Y's KEK for X's key identifier" and replaces the content. Judged on long-lived caches (root key loaded) that have handled Y's
+        # blobs before X's: what the cache learnt for one security descriptor must never open a blob of another
+        from cryptography.hazmat.primitives import keywrap
+        from cryptography.hazmat.primitives.ciphers.aead import AESGCM
+
+        import dpapi_ng
+
+        from ref import cms, dtyp, gkdi
+
+        base = bm.base_by_id(seed, shard[1])
+        b = cms.decode(base.blob)
+        kid = gkdi.unpack_keyid(b.keyid)
+        h = base.rk.hash_name
+        n = 0
+        try:
+            for sid_y in ("S-1-5-21-1-2-3-513", "S-1-1-0", "S-1-5-0"):
+                sd_y = dtyp.target_sd(dtyp.parse_sid_string(sid_y))
+                d_ = seams.Drbg(("C04cross", seed, base.bid, sid_y))
+                blob_y = cms.ref_encrypt(base.rk, sid_y, b"for group Y", (kid.l0, kid.l1, kid.l2), cek=d_.bytes(32), gcm_nonce_=d_.bytes(12), key_nonce=d_.bytes(32), domain="domain.test", forest="forest.test")
+                blob_y2 = cms.ref_encrypt(base.rk, sid_y, b"for group Y, later", (kid.l0, 31, 31), cek=d_.bytes(32), gcm_nonce_=d_.bytes(12), key_nonce=d_.bytes(32), domain="domain.test", forest="forest.test")
+                for hist in ("unprotect-Y", "unprotect-Y-twice", "protect-Y", "unprotect-Y-then-X", "none"):
+                    cache = seams.make_cache(base.rk)
+                    ft = (kid.l0 * 1024 + kid.l1 * 32 + kid.l2) * gkdi.B + 99
+                    with seams.clock(ft):
+                        if hist.startswith("unprotect-Y"):
+                            assert bytes(dpapi_ng.ncrypt_unprotect_secret(blob_y, cache=cache)) == b"for group Y"
+                        if hist == "unprotect-Y-twice":
+                            assert bytes(dpapi_ng.ncrypt_unprotect_secret(blob_y2, cache=cache)) == b"for group Y, later"
+                        if hist == "protect-Y":
+                            dpapi_ng.ncrypt_protect_secret(b"y", sid_y, root_key_identifier=base.rk.rkid, cache=cache)
+                        if hist == "unprotect-Y-then-X":
+                            assert bytes(dpapi_ng.ncrypt_unprotect_secret(base.blob, cache=cache)) == base.plaintext
+                    _hist_cache["cache"] = cache
+                    for pos in ((kid.l1, kid.l2), (31, 31), (0, 0), (kid.l1, 31)):
+                        l2k = gkdi.Chain(h, base.rk.key, kid.rkid, sd_y, kid.l0).l2(pos[0], pos[1])
+                        kid2 = kid._replace(l1=pos[0], l2=pos[1])
+                        kek = gkdi.kek_nonce(h, l2k, kid2.key_info)
+                        cek = b"\x5a" * 32
+                        enc = AESGCM(cek).encrypt(cms.gcm_nonce(b), b"FROM-GROUP-Y", None)
+                        data = cms.encode(b._replace(keyid=gkdi.pack_keyid(kid2), enc_cek=keywrap.aes_key_wrap(kek, cek), enc_content=enc))
+                        label = ["crossgroup", sid_y, hist, list(pos)]
+                        oc = judge(acc, base, label, data, [], "async" if n % 2 else "sync")
+                        acc.outcome("crossgroup:" + oc.split(":")[0])
+                        n += 1
+        finally:
+            _hist_cache["cache"] = None
+        acc.ev(n)
+        acc.nt_counted(n)
+        acc.sample({"blob": base.bid, "re-wrapped by a member of": ["S-1-5-21-1-2-3-513", "S-1-1-0", "S-1-5-0"], "cache histories": 5})
+        return
     if shard[0] == "forge":
         base = bm.base_by_id(seed, shard[1])
         st, v = unprotect(base, base.blob)
@@ -597,8 +650,8 @@ def replay(case, seed, acc) -> None:
     _, bid, label = case[:3]
     api = case[3] if len(case) > 3 else "sync"
     acc.ev()
-    if label[0] == "selfcopy":
-        run_shard(["selfcopy", bid], "quick", seed, acc)
+    if label[0] in ("selfcopy", "crossgroup"):
+        run_shard([label[0], bid], "quick", seed, acc)
         for kk in list(acc.violations):
             acc.violations[kk] = [e for e in acc.violations[kk] if e["case"][2] == list(label)]
             if not acc.violations[kk]:
